@@ -30,9 +30,10 @@ PROPS = {
             {"kind": "verus", "unit": "seqsearch"},
             {"kind": "verus", "unit": "timeout"},
             {"kind": "verus", "unit": "depthorder"},
+            {"kind": "verus", "unit": "snth"},
         ],
         "unreached": [
-            "the searching builtins other than the scan loops of sequence take_while / skip_until (nth, generator consumers, find ...): that each consumes one permit per element examined",
+            "the searching builtins other than the loops of sequence take_while / skip_until / nth (find, contains, the natives written over generators ...): that each consumes one permit per element examined",
             "that every route by which library code calls a user function goes through eval_func_with_values (argued from visibility, not proved)",
         ],
         "assumptions": ["an evaluation performs fewer than 2^64 consecutive tail calls / nested frames (usize counters)",
@@ -153,6 +154,7 @@ PROPS = {
             {"kind": "verus", "unit": "rangector"},
             {"kind": "verus", "unit": "idx"},
             {"kind": "verus", "unit": "sequpd"},
+            {"kind": "verus", "unit": "snth"},
         ],
         "unreached": [
             "XSequence::chain (that it establishes the cumulative-length invariant V-seq assumes for the Chain arm of get), len on Chain/Map/Zip (macros over dyn Any downcasts, Cow, iterator chains: outside Verus' dialect; BigInt promotion closure makes them intractable for CBMC)",
